@@ -196,16 +196,23 @@ class Rotate(Domain):
         # domain_bounds are in shape [x_min, x_max, y_min, y_max, ...]
         # both min and max have to be shifted by the same value
         domain_bounds = domain_bounds - translation_values
-        rotated_min = torch.matmul(rotation_matrix, domain_bounds[:, ::2].unsqueeze(-1))
-        rotated_min = rotated_min.squeeze(-1)
-        rotated_max = torch.matmul(
-            rotation_matrix, domain_bounds[:, 1::2].unsqueeze(-1)
-        )
-        rotated_max = rotated_max.squeeze(-1)
+        # rotate every corner of the box, any of them can become extremal
+        box_min, box_max = domain_bounds[:, ::2], domain_bounds[:, 1::2]
+        rotated_corners = []
+        for corner_index in range(2**self.space.dim):
+            use_max = torch.tensor(
+                [(corner_index >> i) & 1 for i in range(self.space.dim)],
+                dtype=torch.bool,
+                device=box_min.device,
+            )
+            corner = torch.where(use_max, box_max, box_min)
+            rotated = torch.matmul(rotation_matrix, corner.unsqueeze(-1))
+            rotated_corners.append(rotated.squeeze(-1))
+        rotated_corners = torch.stack(rotated_corners, dim=0)
         domain_bounds = torch.zeros(
-            (len(rotated_min), 2 * self.space.dim), device=device
+            (rotated_corners.shape[1], 2 * self.space.dim), device=device
         )
-        domain_bounds[:, ::2] = torch.min(rotated_min, rotated_max)
-        domain_bounds[:, 1::2] = torch.max(rotated_min, rotated_max)
+        domain_bounds[:, ::2] = torch.min(rotated_corners, dim=0).values
+        domain_bounds[:, 1::2] = torch.max(rotated_corners, dim=0).values
         domain_bounds = domain_bounds + translation_values
         return domain_bounds.squeeze(0)
